@@ -1892,4 +1892,173 @@ theorem add_unfold (a b c : MF) (h : MF.add a b = .ok c) :
             exact ⟨A, E, L, T, P, rfl, rfl, rfl, rfl, rfl, h⟩
 
 
+/-! ### `ModelFeatures.__sub__` -/
+
+theorem modesEq_ok_names (a b : Modes) (r : Bool) (h : modesEq a b = .ok r) : ∃ al bl, a = .names al ∧ b = .names bl := by
+  cases a <;> cases b <;> simp [modesEq, Modes.iter, bind, Except.bind] at h
+  exact ⟨_, _, rfl, rfl⟩
+
+theorem optSub_expand (k : ModeKind) (l r res : Option Modes) (h : optSub k l r = .ok res) :
+    (∀ x, x ∈ optExpand k.wildcard l → x ∉ optExpand k.wildcard r → x ∈ optExpand k.wildcard res) ∧
+    (∀ x, x ∈ optExpand k.wildcard res →
+      (x ∈ optExpand k.wildcard l ∧ x ∉ optExpand k.wildcard r) ∨ x = k.subDefault) := by
+  unfold optSub at h
+  simp only [bind, Except.bind] at h
+  cases h1 : truthy k l with
+  | error e => simp [h1] at h
+  | ok b1 =>
+    cases b1
+    · simp [h1, pure, Except.pure] at h; subst h
+      simp [truthy_false k l h1]
+    · cases h2 : truthy k r with
+      | error e => simp [h1, h2] at h
+      | ok b2 =>
+        cases b2
+        · simp [h1, h2, pure, Except.pure] at h; subst h
+          simp only [truthy_false k r h2]
+          exact ⟨fun x hx _ => hx, fun x hx => Or.inl ⟨hx, by simp⟩⟩
+        · obtain ⟨a, rfl, _⟩ := truthy_true k l h1
+          obtain ⟨b, rfl, _⟩ := truthy_true k r h2
+          simp only [h1, h2, if_true] at h
+          cases he : modesEq a b with
+          | error e => simp [he] at h
+          | ok eq =>
+            obtain ⟨al, bl, rfl, rfl⟩ := modesEq_ok_names a b eq he
+            obtain ⟨eq', he', hiff⟩ := modesEq_names al bl
+            have heq : eq = eq' := by rw [he'] at he; cases he; rfl
+            subst heq
+            obtain ⟨rr, hs, hd1, hd2⟩ := modesSub_names k al bl
+            cases eq
+            · simp only [he', Bool.false_eq_true, if_false, hs, pure, Except.pure] at h
+              cases h
+              simp only [optExpand, Modes.expand]
+              by_cases hex : ∃ x, x ∈ al ∧ x ∉ bl
+              · have := hd1 hex
+                exact ⟨fun x h1 h2 => (this x).mpr ⟨h1, h2⟩, fun x hx => Or.inl ((this x).mp hx)⟩
+              · have := hd2 hex
+                subst this
+                refine ⟨fun x h1 h2 => absurd ⟨x, h1, h2⟩ hex, fun x hx => Or.inr (by simpa using hx)⟩
+            · simp only [he', if_true, pure, Except.pure] at h
+              cases h
+              have hsame := hiff.mp rfl
+              simp only [optExpand, Modes.expand]
+              exact ⟨fun x h1 h2 => absurd ((hsame x).mp h1) h2, fun x hx => by cases hx⟩
+
+/-- `_add_sub_peripherals(add=False)`: atoms of the result are the difference -/
+theorem addSubPeripherals_sub (a b : MF) (ps : List Peripherals) (h : addSubPeripherals a b false = .ok ps) (c : Nat) (m : String) :
+    Atom.peri c m ∈ ps.flatMap Peripherals.atoms ↔
+      (∃ p, p ∈ a.peripherals ∧ c ∈ p.counts ∧ m ∈ p.modes.expand Gen.peripheralsModesWildcard) ∧
+      ¬ (∃ p, p ∈ b.peripherals ∧ c ∈ p.counts ∧ m ∈ p.modes.expand Gen.peripheralsModesWildcard) := by
+  unfold addSubPeripherals at h
+  cases h1 : extractPeripherals a.peripherals with
+  | error e => simp [h1, bind, Except.bind] at h
+  | ok r1 =>
+    cases h2 : extractPeripherals b.peripherals with
+    | error e => simp [h1, h2, bind, Except.bind] at h
+    | ok r2 =>
+      obtain ⟨lm, ld⟩ := r1
+      obtain ⟨rm, rd⟩ := r2
+      simp only [h1, h2, bind, Except.bind, pure, Except.pure, Bool.false_eq_true, if_false] at h
+      cases h
+      obtain ⟨v1, m1, d1⟩ := extractPeripherals_spec _ _ h1
+      obtain ⟨v2, m2, d2⟩ := extractPeripherals_spec _ _ h2
+      rw [builtPeripherals_atoms, peri_exists_iff _ v1, peri_exists_iff _ v2]
+      simp only [List.mem_filter, Bool.not_eq_true']
+      simp only at m1 d1 m2 d2
+      rw [← m1, ← d1, ← m2, ← d2]
+      have hne : ("MET" : String) ≠ "DRUG" := by decide
+      by_cases e1 : m = "MET"
+      · subst e1; simp [hne]
+      · by_cases e2 : m = "DRUG"
+        · subst e2; simp [hne.symm]
+        · simp [e1, e2]
+
+theorem sub_unfold (a b c : MF) (h : MF.sub a b = .ok c) :
+    ∃ A E L T P, addSubTransits a b false = .ok T ∧ addSubPeripherals a b false = .ok P ∧
+      optSub absorptionKind a.absorption b.absorption = .ok A ∧
+      optSub eliminationKind a.elimination b.elimination = .ok E ∧
+      optSub lagtimeKind a.lagtime b.lagtime = .ok L ∧ MF.create A E T P L = .ok c := by
+  unfold MF.sub at h
+  simp only [bind, Except.bind] at h
+  cases hT : addSubTransits a b false with
+  | error e => simp [hT] at h
+  | ok T =>
+    cases hP : addSubPeripherals a b false with
+    | error e => simp [hT, hP] at h
+    | ok P =>
+      cases hA : optSub absorptionKind a.absorption b.absorption with
+      | error e => simp [hT, hP, hA] at h
+      | ok A =>
+        cases hE : optSub eliminationKind a.elimination b.elimination with
+        | error e => simp [hT, hP, hA, hE] at h
+        | ok E =>
+          cases hL : optSub lagtimeKind a.lagtime b.lagtime with
+          | error e => simp [hT, hP, hA, hE, hL] at h
+          | ok L =>
+            simp only [hT, hP, hA, hE, hL] at h
+            exact ⟨A, E, L, T, P, rfl, rfl, rfl, rfl, rfl, h⟩
+
+theorem subDefaults_are_defaults :
+    Atom.abs absorptionKind.subDefault ∈ defaultAtoms ∧ Atom.elim eliminationKind.subDefault ∈ defaultAtoms ∧
+      Atom.lag lagtimeKind.subDefault ∈ defaultAtoms := by decide +kernel
+
+/-- the components handed to `create` by `__sub__` -/
+theorem sub_components (a b : MF) (A E L : Option Modes) (T : List Transits) (P : List Peripherals)
+    (hT : addSubTransits a b false = .ok T) (hP : addSubPeripherals a b false = .ok P)
+    (hA : optSub absorptionKind a.absorption b.absorption = .ok A)
+    (hE : optSub eliminationKind a.elimination b.elimination = .ok E)
+    (hL : optSub lagtimeKind a.lagtime b.lagtime = .ok L) :
+    (∀ x, x ∈ a.atoms → x ∉ b.atoms → x ∈ (MF.mk A E T P L).atoms) ∧
+    (∀ x, x ∈ (MF.mk A E T P L).atoms → (x ∈ a.atoms ∧ x ∉ b.atoms) ∨ x ∈ defaultAtoms) := by
+  obtain ⟨a1, a2⟩ := optSub_expand absorptionKind _ _ _ hA
+  obtain ⟨e1, e2⟩ := optSub_expand eliminationKind _ _ _ hE
+  obtain ⟨l1, l2⟩ := optSub_expand lagtimeKind _ _ _ hL
+  obtain ⟨da, de, dl⟩ := subDefaults_are_defaults
+  have tr : ∀ c d, Atom.trans c d ∈ (MF.mk A E T P L).atoms ↔ Atom.trans c d ∈ a.atoms ∧ Atom.trans c d ∉ b.atoms := by
+    intro c d
+    have := addSubTransits_sub a b T hT c d
+    simp only [mem_atoms_trans]
+    rw [← this]
+    simp only [List.mem_flatMap, Transits.atoms, List.mem_map]
+    constructor
+    · rintro ⟨t, ht, hc, hd⟩; exact ⟨t, ht, c, hc, d, hd, rfl⟩
+    · rintro ⟨t, ht, c', hc, d', hd, he⟩; cases he; exact ⟨t, ht, hc, hd⟩
+  have pe : ∀ c d, Atom.peri c d ∈ (MF.mk A E T P L).atoms ↔ Atom.peri c d ∈ a.atoms ∧ Atom.peri c d ∉ b.atoms := by
+    intro c d
+    have := addSubPeripherals_sub a b P hP c d
+    simp only [mem_atoms_peri]
+    rw [← this]
+    simp only [List.mem_flatMap, Peripherals.atoms, List.mem_map]
+    constructor
+    · rintro ⟨t, ht, hc, hd⟩; exact ⟨t, ht, c, hc, d, hd, rfl⟩
+    · rintro ⟨t, ht, c', hc, d', hd, he⟩; cases he; exact ⟨t, ht, hc, hd⟩
+  constructor
+  · intro x hx hnx
+    cases x with
+    | abs m => rw [mem_atoms_abs] at hx hnx ⊢; exact a1 m hx hnx
+    | elim m => rw [mem_atoms_elim] at hx hnx ⊢; exact e1 m hx hnx
+    | lag m => rw [mem_atoms_lag] at hx hnx ⊢; exact l1 m hx hnx
+    | trans c d => exact (tr c d).mpr ⟨hx, hnx⟩
+    | peri c d => exact (pe c d).mpr ⟨hx, hnx⟩
+  · intro x hx
+    cases x with
+    | abs m =>
+      rw [mem_atoms_abs] at hx
+      rcases a2 m hx with h | h
+      · left; rw [mem_atoms_abs, mem_atoms_abs]; exact h
+      · right; rw [h]; exact da
+    | elim m =>
+      rw [mem_atoms_elim] at hx
+      rcases e2 m hx with h | h
+      · left; rw [mem_atoms_elim, mem_atoms_elim]; exact h
+      · right; rw [h]; exact de
+    | lag m =>
+      rw [mem_atoms_lag] at hx
+      rcases l2 m hx with h | h
+      · left; rw [mem_atoms_lag, mem_atoms_lag]; exact h
+      · right; rw [h]; exact dl
+    | trans c d => exact Or.inl ((tr c d).mp hx)
+    | peri c d => exact Or.inl ((pe c d).mp hx)
+
+
 end Pharmpy.C18
